@@ -211,6 +211,71 @@ def d1_dbscan(F, r):
         r.fail("create_clusters: core point test", "min_points is no longer compared with the neighbourhood size", F.loc(DBSCAN))
 
 
+def d2_core_threshold(F, r):
+    """DBSCAN: a point seeds / extends a cluster iff it has at least `min_points` neighbours (core point); otherwise it is noise / a border point"""
+    cc = F.find1("dbscan::create_clusters")
+    fn = F.fns[cc]
+    mp = [int(k) for k, v in fn["names"].items() if v == "min_points" and int(k) <= fn["argc"]]
+    if not mp:
+        raise AnchorError("create_clusters: no `min_points` parameter")
+    mp = mp[0]
+    cmps = []
+    for bi, si, st in mir.stmts(fn):
+        rv = st["r"]
+        if rv["k"] != "bin" or rv.get("op") not in ("Lt", "Le", "Gt", "Ge"):
+            continue
+        sides = []
+        for o in rv["o"]:
+            tr = mir.trace(fn, o, through_calls=())
+            if any(k == "arg" and v == mp for k, v, p in tr):
+                sides.append("min")
+            elif any(k == "call" and fn["bbs"][v]["t"]["callee"].endswith("::len") for k, v, p in tr):
+                sides.append("len")
+            else:
+                sides.append("?")
+        if sorted(sides) != ["len", "min"]:
+            continue
+        op = rv["op"]
+        if sides[0] == "min":
+            op = {"Lt": "Gt", "Gt": "Lt", "Le": "Ge", "Ge": "Le"}[op]
+        # the switch on this result
+        sw = [sb for sb, bb in enumerate(fn["bbs"]) if bb["t"]["k"] == "switch" and mir.is_place(bb["t"]["o"]) and bb["t"]["o"]["l"] == st["d"]["l"]]
+        if len(sw) != 1:
+            raise AnchorError("create_clusters: threshold comparison is not switched on directly")
+        t = fn["bbs"][sw[0]]["t"]
+        f_t = [tb for v, tb in t["tg"] if v == 0]
+        if not f_t:
+            raise AnchorError("create_clusters: unexpected switch shape")
+        cmps.append((op, sw[0], t["else"], f_t[0], st["ln"]))   # (len OP min, switch block, true target, false target)
+    if len(cmps) != 2:
+        raise AnchorError(f"create_clusters: {len(cmps)} comparisons of a neighbour count with min_points (2 counted: seed and expansion)")
+    noise = {bi for bi, si, st in mir.stmts(fn) if st["r"]["k"] == "agg" and st["r"].get("n", "").endswith("PointType#Noise")}
+    newcl = {bi for bi, t in mir.calls(fn) if t["callee"].endswith("Vec::<T, A>::push") and t["ga"] and t["ga"][0].startswith("alloc::vec::Vec<")}
+    extend = {bi for bi, t in mir.calls(fn) if t["callee"].endswith("Extend::extend")}
+    if not noise or not newcl or not extend:
+        raise AnchorError("create_clusters: noise marking / cluster creation / neighbour extension not found")
+    GE = {"Ge": True, "Lt": False}      # is the TRUE edge the `len >= min_points` side?  (Le / Gt are off by one)
+    for op, sb, t_true, t_false, ln in cmps:
+        r_true = mir.reach(fn, [t_true], blocked={sb})
+        r_false = mir.reach(fn, [t_false], blocked={sb})
+        role = "seed" if (noise & (r_true | r_false)) and ((noise & r_true) != (noise & r_false)) else "expansion"
+        inst = f"create_clusters: {role} threshold"
+        if op not in GE:
+            r.fail(inst, f"a neighbour count is compared with min_points by `{op}` (normalised `len {op} min_points`): off by one against the definition of a core point (at least min_points neighbours)", F.loc(cc, ln))
+            continue
+        core_side, other_side = (r_true, r_false) if GE[op] else (r_false, r_true)
+        if role == "seed":
+            if (noise & other_side) and not (noise & core_side) and (newcl & core_side):
+                r.ok(inst, "len < min_points => noise; len >= min_points => a new cluster is grown from the point")
+            else:
+                r.fail(inst, "the seed test is inverted: a point with fewer than min_points neighbours starts a cluster (or a core point is marked as noise)", F.loc(cc, ln))
+        else:
+            if (extend & core_side) and not (extend & other_side):
+                r.ok(inst, "only points with len >= min_points neighbours extend the frontier (border points do not)")
+            else:
+                r.fail(inst, "the expansion test is inverted or missing: a non-core point extends the cluster (points not density-reachable get in) or core points do not", F.loc(cc, ln))
+
+
 def m1_kmedoids(F, r):
     calc = KMED + "calculate"
     fn = F.fns.get(calc)
@@ -296,4 +361,5 @@ def run(ctx):
     ctx.run("C17-G1", "LKH: only validated permutations are returned", g1_permutation_gate, floor=5)
     ctx.run("C17-G2", "LKH: only strictly improving paths are accepted", g2_improvement_gate, floor=2)
     ctx.run("C17-D1", "DBSCAN: clusters are disjoint by construction", d1_dbscan, floor=3)
+    ctx.run("C17-D2", "DBSCAN: clusters are seeded and extended by core points only (count >= min_points), others are noise / border", d2_core_threshold, floor=2)
     ctx.run("C17-M1", "k-medoids: result is an assignment of every point to its nearest medoid", m1_kmedoids, floor=3)
